@@ -77,10 +77,14 @@ Hangs are decided on logical steps: `verifhook.EOFRead()` (reader at end of
 input) and `verifhook.Token()` (parser token fetch) count against budgets
 5000+50n and 20000+400n (n = input bytes; measured legitimate maxima are in
 every evidence file as `step_max`, two orders of magnitude below); a third
-counter, `verifhook.Walk()` (one ancestor-list expansion in `base.parentNodes`,
-budget 50x the token budget), was added when a seeded change made a lookup walk
-exponential in the depth of an include lattice without fetching a single token
-(family `inheritance-lattice`). A hang needs
+counter, `verifhook.Walk()` (one ancestor-list expansion in `base.parentNodes`),
+was added when a seeded change made a lookup walk exponential in the depth of an
+include lattice without fetching a single token (family `inheritance-lattice`).
+Its budget started at 50x the token budget and is 4x now: a later seeded change
+needed only four million expansions to reach ti's own 500 ms watchdog, below the
+first budget; the measured legitimate maximum (a lattice of depth 23 looked up a
+dozen times, 320 000 expansions) is a quarter of the new one, and a tripped
+budget is only one of the two keys of a hang verdict. A hang needs
 the tripped budget (or death by stack exhaustion) in-process AND 3 of 3
 `timeout` outputs of the plain binary while all lanes are paused. The harness's
 own wall clocks (12 s in-process, 20 s black-box) only produce `inconclusive`.
@@ -93,11 +97,11 @@ printing) is never compared; it is retried or skipped and counted.
 
 | id | oracle kind | what is generated / observed (quick tier per seed) |
 |---|---|---|
-| C01 | process boundary | ~7600 runs: hostile endings, stray quotes, corpus prefixes, token mutations, generated programs, `ti f` and `ti f -i`; crash = panic/fatal/exit 2, malformed line = grammar of section 4 |
-| C02 | logical watchdog + black-box timeout | same families plus include/extend/superclass cycles |
+| C01 | process boundary | ~8100 runs: hostile endings, stray quotes, corpus prefixes, token mutations, generated programs, `ti f` and `ti f -i`; families added later: `inheritance-lattice`, `size-boundary` (one large thing per program: 7..130 elements, block parameters, arguments, parameters, keywords, chain links, nesting levels, union members, branches, ancestors), `alias-chains` (unassigned names assigned from one another, swap cycles, rho shapes), `cycle-with-receiver` (include/extend/superclass cycles and a value of a class that reaches them), `partial-config` (the shipped configuration minus one of the 20 methods ti evaluates with a strategy of its own, or minus its class file); crash = panic/fatal/exit 2, malformed line = grammar of section 4 |
+| C02 | logical watchdog + black-box timeout | same families (the fixed hostile list has include/extend/superclass cycles) |
 | C03 | lexer probe hook | all strings of length <= 4 over 24 hostile symbols (quick), Unicode category representatives, corpus prefixes: termination within budget, full consumption, token count <= 2n+2 |
-| C04 | process boundary per mode | `--suggest/--hover/--define` with `--row` inside, at, and beyond the file; record grammar per mode |
-| C05 | repeated runs | 13 modes x corpus/generated/tie programs, 3-6 fresh processes each with different GOMAXPROCS/GOGC, byte equality (set equality for `--define`); race build in thorough |
+| C04 | process boundary per mode | `--suggest/--hover/--define` with `--row` inside, at, and beyond the file; record grammar per mode; the cycle and partial-config families put the row on the receiver / on the row that uses the missing method |
+| C05 | repeated runs | 13 modes x corpus/generated/tie programs (ties: one method name in several frames, class names equal under case folding, one short class name in namespaces of equal name length, one call with several owner classes), 3-6 fresh processes each with different GOMAXPROCS/GOGC, byte equality (set equality for `--define`); race build in thorough |
 | C06 | relational (layout) | blank lines, comment lines, two of them, three-line =begin/=end blocks at safe boundaries, final newline dropped/doubled, string literals widened by a real newline or a backslash-newline: rows map, everything else equal; adjacency family (`c06adj.go`): 38 complete statements x 28 following statements whose first token could continue an expression (`if`/`unless`/`while`/`until`, `[`, `(`, `!`, literals) plus 16 body headers (`in`/`when`/`else`/`rescue`/`do`/`def` ...) x the same 28, the line inserted exactly between the two (300 random pairs quick, all pairs thorough) |
 | C07-C09 | reference model | `typed.go`: 320 generated programs over the shipped and 4 generated configurations: literals, ternary unions, reassignment, array/hash literals (nested too), indexing, push/<< growth, calls (own, inherited, Object methods, keywords, overloads, union receivers, Untyped members, multi-line argument lists and blocks, calls nested in if/unless/while/elsif/blocks); model `cfgmodel.go` = documented meaning of .ti-config; C07 certain-fail rows need a diagnostic on the row the call starts on, C08 certain-ok rows need none, C09 probes compared as type sets (nested arrays as (depth, class) pairs); string literal texts that look like other tokens (`"*star"`, `"&blk"`, `"**kw"`, `":sym"`, `"12"`); `Hash#delete` on hashes with several value classes; a printed union with a union inside is a violation by itself (`union-not-flat`) |
 | C10 | reference model | 300 programs, ~10k probes: if/unless/elsif/else nested to depth 3, `x.nil?`, `!x.nil?`, `x.is_a?(C)`, && chains over distinct and the same variable, unrelated statements and inner conditionals, also inside a method; variants include `Array<..>` and `Hash`; one condition in five does not split the variants (class test of an already narrowed variable, `nil?` of a non-nil one, `is_a?` of a foreign class: only the side keeping every variant is judged); one program in four uses global variables tested in a top-level, instance or class method |
@@ -109,13 +113,13 @@ printing) is never compared; it is retried or skipped and counted.
 | C16 | reference model | 300 hierarchies: depth 0-3, modules included/extended, def self./class << self, reopenings, namespaces 1-4 deep with the superclass in an enclosing one, initialize arity, private/protected (also from modules), names colliding with configured classes of other frames; visibility given by section keyword, by `private def m`, or by `private :m` after the definition |
 | C17 | reference model | 300 programs, ~3800 probes: block calls (do/end, braces) on arrays, hashes, integers, strings, ranges, with and without arguments, generated configured classes; 0-3 parameters, shadowing, nesting, block locals; an outermost block outside a method ends one time in three in a reported statement (undefined method, Integer + String) |
 | C18 | relational (preload split) | a program split at nesting-aware top-level boundaries into 1-3 preloaded files + target vs. the whole program; one list in eight also names a file that does not exist; one case in five black-box direct |
-| C19-C21 | relational (configuration pairs) | `cfgrel.go`: renamed shipped files, classes split over files (`extends` in one or all parts, overloads kept together), extra unmentioned classes (fresh, namespaced, reusing user-class, module, core-class short names, forward-referenced superclasses), long vs compact notation (unions up to four members, Untyped members) |
+| C19-C21 | relational (configuration pairs) | `cfgrel.go`: renamed shipped files, classes split over files (`extends` in one or all parts, overloads kept together), extra unmentioned classes (fresh, namespaced, reusing user-class, module, core-class short names, forward-referenced superclasses), long vs compact notation (unions up to four members, Untyped members, optional/rest parameters and nilable returns of a class of another namespace, arrays of arrays); the listed split-overloads finding is told apart by a third configuration (section 11.6) |
 | C22 | reference model over -i / --define / --hover | 150 programs, ~1800 runs: def rows, c//i/ tags, visibility in effect (sections, class << self with own sections, nested classes), endless and two-line defs, every call row hovered |
 | C23 | reference model over --suggest | ~240 queries: user hierarchies with unique names (include, extend, both, module functions, factories in a foreign class; part of the chain in another namespace than its superclass, mixins named `Drawing::Mixa`, a singleton block inside a private section), core literals (also of a core class the program reopens), generated configured classes; the cursor on the last row or inside a method body (`obj.`, `Klass.`, `self.` in instance and class methods) |
 | C24 | reference model over --llm-nav | 120 programs, ~800 queries: call sites as multisets of (row, enclosing method, class), totals, callees |
-| C25 | converter monitor | generated RBS AST documents through a stand-in `ruby`; 6 conversions each (bytes equal), emitted shape vs declaration, arity through ti on untyped- and nested-class-typed parameters |
-| C26 | converter monitor | generated C sources (MRB_ARGS specs, mrb_get_args formats, mrbc argc patterns) vs ti's acceptance of 0..6 arguments |
-| C27 | relational (namespace wrap) | class groups at top level vs wrapped in 1-2 modules with qualified outside references, decoy classes of the same short names for every class |
+| C25 | converter monitor | generated RBS AST documents through a stand-in `ruby` (1-3 overloads, keywords whose names differ in case only, a class method with one keyword declared three ways); 6 conversions each (bytes equal), emitted shape vs declaration, arity through ti on untyped- and nested-class-typed parameters, with and without the required keywords |
+| C26 | converter monitor | generated C sources (MRB_ARGS specs, mrb_get_args formats, mrbc argc guards ascending, descending or as an else-if chain) vs ti's acceptance of 0..6 arguments |
+| C27 | relational (namespace wrap) | class groups at top level vs wrapped in 1-2 modules with qualified outside references, decoy classes of the same short names for every class (the decoy is called too); every class answers `common`, called on a union of two classes of the group; a rest-parameter method called from outside and, without receiver, from inside |
 
 Thorough tiers run the same generators with 10-30x the case count (and the race
 build for C05); they are what `vp run` was used for.
@@ -300,8 +304,8 @@ by kind, so parser state leaking over a line end was invisible (C06 adjacency:
 it also found a genuine defect after `in Pattern => v`); (8) every test split
 the variants and every variable was a local (C10); (9) a listed finding with a
 family-wide signature hides every other defect of the family (C19); (10) the
-third round, for the properties that had had one round only, was missed 17
-times out of 20 at first: calls without parentheses, union arguments that are
+third round, for the properties that had had one round only, was missed 30
+times out of 38 at first: calls without parentheses, union arguments that are
 strict subsets of a parameter union, methods declared twice with a
 parameterless declaration first or last, chains of depth two under a
 redeclared Object method (C07/C08); fragments that raise, return or call an
@@ -310,8 +314,15 @@ operator on a union (C11); names of unusual shape and locals bound by patterns
 methods returning instances (C15); a preload list naming a missing file (C18);
 namespaced includers and sibling superclasses (C20); ancestors in another
 namespace, singleton blocks in private sections, reopened core classes and a
-cursor inside a method body (C23). Five of these extensions exposed genuine
-defects of the unchanged tree, repaired as `fix:` commits.
+cursor inside a method body (C23); one large thing per program - 21 elements,
+33 parameters, 64 keywords (C01); unassigned names chained into a swap cycle
+(C02); include cycles with the query row on a receiver, and the shipped
+configuration minus one method (C04); ties between namespaces of equal name
+length and between the owners of one call (C05); namespaced and nested types
+(C21); case-variant keywords, three overloads, omitted required keywords (C25);
+descending argc guards (C26); union receivers and rest parameters inside a
+namespace (C27). Eleven of these extensions exposed genuine defects of the
+unchanged tree, repaired as `fix:` commits.
 
 ### 11.8 Self-validation performed
 
